@@ -198,7 +198,7 @@ def case_strategy(draw):
     if attr in ("orientation", "handedness", "field_func"):
         kind = "foreign"
         if attr == "handedness" and draw(st.booleans()):
-            return {"cls": cls, "attr": attr, "via": via, "value": enc("str", v=draw(st.sampled_from(["right", "left", "Right", "up"]))), "kind": "mutated"}
+            return {"cls": cls, "attr": attr, "via": via, "value": enc("str", v=draw(st.sampled_from(["right", "left", "Right", "up", "r", "righ", "eft", "rightleft", "left ", "LEFT", "right-handed"]))), "kind": "mutated"}
     val = draw(mutated_valid(cls, attr)) if kind == "mutated" else draw(foreign_value())
     return {"cls": cls, "attr": attr, "via": via, "value": val, "kind": kind}
 
